@@ -92,7 +92,7 @@ def case_strategy(draw, variant):
     op = draw(st.sampled_from(names))
     o = ops.OPS[op]
     kw = o.kw(draw, n) if o.kw else {}
-    mask = draw(S.mask_spec(n, kinds=(mk,), negative_pos=False)) if mk != "none" else None
+    mask = draw(S.mask_spec(n, kinds=(mk,), negative_pos=False, steps=False)) if mk != "none" else None
     return {"n": n, "keys": keys, "vals": vals, "mask": mask, "op": op, "kw": kw, "cfg": cfg,
             "sort": draw(st.sampled_from([True, True, False]))}
 
@@ -294,7 +294,7 @@ def kernel_case(draw, variant):
     kernel = draw(st.sampled_from([k for k in ("size", "count", "sum", "mean", "min", "max", "first", "last", "sum_squares")
                                    if not (dtype == "datetime" and k == "sum_squares")]))
     mk = draw(st.sampled_from(["none", "none", "bool", "pos"]))
-    mask = None if mk == "none" else draw(S.mask_spec(n, kinds=(mk,)))
+    mask = None if mk == "none" else draw(S.mask_spec(n, kinds=(mk,), steps=False))
     return {"dtype": dtype, "codes": codes, "vals": vals, "kernel": kernel, "mask": mask, "ng": ng,
             "split": {"nt": draw(st.integers(2, 4))},
             "gather": draw(st.lists(st.integers(0, 7), max_size=6)), "execute": draw(st.lists(st.integers(0, 7), max_size=6))}
